@@ -8,6 +8,8 @@
      t = Short   - a thread_id shorter than 16 characters: rejected by the request schema
                    (HTTP 422) before the handler runs: no store access, no generation
      sh = 1 : one user message        sh = 2 : two messages
+     sh = 4 : one user message and a `state` object (the conversation state of a Colang 2.x config travels next to
+              the messages; it is not a message and does not replace the stored thread)
      sh = 3 : one user message and a `context` object (the handler inserts a context message in
               front of the new messages, so it travels with them)
    Messages are numbers: Tok(k, j) = 10 k + j is the j-th message of the k-th request
@@ -24,7 +26,7 @@ CONSTANTS Tids,      \* set of valid thread ids (positive integers)
 
 NoTid  == 0
 Keys   == Tids \cup {Short}
-Shapes == {1, 2, 3}
+Shapes == {1, 2, 3, 4}
 
 Tok(k, j)   == 10 * k + j
 ReqOf(m)    == m \div 10
@@ -33,6 +35,7 @@ Reply(k)    == Tok(k, 5)
 NewMsgs(k, sh) == CASE sh = 1 -> <<Tok(k, 1)>>
                     [] sh = 2 -> <<Tok(k, 1), Tok(k, 2)>>
                     [] sh = 3 -> <<Tok(k, 0), Tok(k, 1)>>
+                    [] sh = 4 -> <<Tok(k, 1)>>
 Range(s) == {s[i] : i \in 1..Len(s)}
 
 VARIABLES store,   \* Keys -> sequence of messages
